@@ -18,7 +18,14 @@ void nsync_set_per_thread_waiter_ (void *v, void (*dest) (void *)) { (void) v; (
 #ifndef VP_REAL_SEM
 /* VP-ASSUMED: nsync_mu_semaphore_p/v/p_with_deadline touch only the semaphore (arbitrary effect on the waiter's private state, none on any nsync word); this covers counting and binary semaphores */
 void nsync_mu_semaphore_init (nsync_semaphore *s) { (void) s; }
-void nsync_mu_semaphore_p (nsync_semaphore *s) { (void) s; vp_g.p_calls++; }
+void nsync_mu_semaphore_p (nsync_semaphore *s) {
+	(void) s;
+#ifdef VP_RG_MU
+	/* C02 H5: the sleep/wake handshake: a thread blocks only after it published waiting = 1 (before it released the queue spinlock) */
+	VP_ASSERT (vp_g.queued, "C02: a thread sleeps on its semaphore only after publishing waiting = 1 for its queued record");
+#endif
+	vp_g.p_calls++;
+}
 void nsync_mu_semaphore_v (nsync_semaphore *s) {
 	(void) s;
 	vp_g.v_calls++;
@@ -62,7 +69,11 @@ static nsync_dll_element_ *some_record (void) {
 	w->cv_mu = vp_nondet_bool () ? NULL : (struct nsync_mu_s_ *) vp_reg.mu_word;
 	w->flags = vp_nondet_i32 ();
 	w->l_type = vp_nondet_bool () ? nsync_writer_type_ : nsync_reader_type_;
+#ifdef VP_RG_MU
+	w->cond.f = vp_nondet_bool () ? vp_condition : NULL;   /* a conditional waiter (nsync_mu_wait) or a plain one */
+#else
 	w->cond.f = NULL;
+#endif
 	return &w->nw.q;
 }
 void nsync_dll_init_ (nsync_dll_element_ *e, void *container) { e->next = e; e->prev = e; e->container = container; }
